@@ -58,5 +58,14 @@ for f in ("patch.diff", "demo.py", "notes.md"):
 notes = open(os.path.join(d, "notes.md")).read() if os.path.exists(os.path.join(d, "notes.md")) else ""
 meta["needs"] = notes[:1500]
 meta["ran"] = "demo.py on a fresh worktree of /repo HEAD with and without the patch; ./check <prop> --tier quick with VERIF_REPO pointing to a scratch worktree of /repo HEAD with the patch applied"
+try:
+    prev = json.load(open(os.path.join(d, "meta.json")))
+    for k in ("ported", "obsolete"):
+        if k in prev:
+            meta[k] = prev[k]
+    if "ported" in prev:
+        meta["confirmed"] = prev.get("confirmed", meta["confirmed"])
+except Exception:
+    pass
 json.dump(meta, open(os.path.join(d, "meta.json"), "w"), indent=1)
 print("confirmed=%s detected_by=%s" % (meta["confirmed"], meta["detected_by"]))
